@@ -413,7 +413,8 @@ QByteArray QXmppDiscoveryIq::verificationString() const
                     list = field.value().toStringList();
                     break;
                 default:
-                    if (const auto value = field.value().toString(); !value.isEmpty()) {
+                    // as in QXmppDataForm::toXml(): an empty but non-null value is written (<value/>), only a null one is not
+                    if (const auto value = field.value().toString(); !value.isNull()) {
                         list << value;
                     }
                 }
